@@ -10,3 +10,4 @@ import Sheens.EngineOracle
 import Sheens.SioCrew
 import Sheens.MatchSpecC
 import Sheens.MCrew
+import Sheens.Timers
